@@ -67,7 +67,16 @@ def parse(text):
             continue
         m = _PREFIX.match(s)
         if m and cur is None:
-            doc.prefixes[m.group(1)] = m.group(2)
+            if m.group(1) in doc.prefixes and doc.prefixes[m.group(1)] != m.group(2):
+                # sheXer can emit two PREFIX lines with one label (a parsed source re-using a label of the caller's
+                # dictionary): names with that label are ambiguous; expand them to the sorted set of candidates so that
+                # the order of the PREFIX lines does not matter
+                prev = doc.prefixes[m.group(1)]
+                cands = set(prev[1:-1].split("|")) if prev.startswith("{") else {prev}
+                cands.add(m.group(2))
+                doc.prefixes[m.group(1)] = "{" + "|".join(sorted(cands)) + "}"
+            else:
+                doc.prefixes[m.group(1)] = m.group(2)
             doc.prefix_lines.append(s)
             continue
         if s == "{":
